@@ -10,7 +10,7 @@ def emit(*ev):
 def _last(name):
     """a native replay in real time may ask the environment more often than the proof-world path did (a wait loop spins
     until its real deadline): the environment then keeps answering as it did the last time"""
-    k = NativeRT.names.get(name, 0) - 1
+    k = (NativeRT.names.get(name, 0) - 1) if NativeRT.repeat_last else -1
     while k >= 0:
         n = name if k == 0 else "%s#%d" % (name, k)
         if n in NativeRT.oracle:
